@@ -956,6 +956,49 @@ func verifC02(t *testing.T, r *vfh.Rand, out *vfh.Out) {
 	}
 	// (5) malformed stream: unknown keys, wrong types, random bytes — accept/reject and panics only
 	malformed(t, r, out)
+	// (6) accepted documents with one unknown key added at every table level: must be rejected
+	unknownKeys(t, r, out)
+}
+
+// unknownKeys takes accepted documents and adds one key the reference does not know — at the
+// top level, in [debug], in an [[interfaces]] table and in every plugin table, one at a time.
+// "No unknown keys" is a documented constraint: each of these documents must be rejected.
+//
+//	unk level | ok / rej / panic        (level: 0 top, 1 a table header line)
+func unknownKeys(t *testing.T, r *vfh.Rand, out *vfh.Out) {
+	n := vfh.N(150, 4000)
+	made := 0
+	for tries := 0; made < n && tries < 20*n; tries++ {
+		doc := genConfig(r, 100).toml()
+		if _, err, pan := safeParse(doc, time.Unix(1700000000, 0)); err != nil || pan != nil {
+			continue // only accepted documents are interesting
+		}
+		lines := strings.Split(doc, "\n")
+		var headers []int
+		for i, l := range lines {
+			if strings.HasPrefix(strings.TrimSpace(l), "[") {
+				headers = append(headers, i)
+			}
+		}
+		key := vfh.Pick(r, []string{"zz_unknown = 1", "bogus = \"x\"", "Name = \"eth9\"", "prefixes = []", "max_intervall = \"10s\""})
+		try := func(level int, d string) {
+			_, err, pan := safeParse(d, time.Unix(1700000000, 0))
+			impl := "ok"
+			switch {
+			case pan != nil:
+				impl = "panic"
+			case err != nil:
+				impl = "rej"
+			}
+			out.Line(fmt.Sprintf("unk %d %d %d", level, len(d), made), impl)
+			made++
+		}
+		try(0, key+"\n"+doc)
+		for _, h := range headers {
+			d := strings.Join(lines[:h+1], "\n") + "\n" + key + "\n" + strings.Join(lines[h+1:], "\n")
+			try(1, d)
+		}
+	}
 }
 
 func boundaryConfigs() []gConfig {
